@@ -96,10 +96,13 @@ type oracle struct {
 	r        *runner
 	uses     map[string]int // one-time value -> successful redemptions
 	burnt    []string       // one-time values redeemed in the current step
+	owed     map[string]time.Duration // flow -> time of its successful callback (token not yet picked up)
 	delivered map[string]int
 }
 
-func newOracle(r *runner) *oracle { return &oracle{r: r, uses: map[string]int{}, delivered: map[string]int{}} }
+func newOracle(r *runner) *oracle {
+	return &oracle{r: r, uses: map[string]int{}, delivered: map[string]int{}, owed: map[string]time.Duration{}}
+}
 
 var ttl = map[string]time.Duration{"tok": 5 * time.Second, "cs": time.Minute, "st": time.Minute, "code": time.Minute, "nonce": time.Minute,
 	"r1": 15 * time.Minute, "ro": 15 * time.Minute, "sid": 15 * time.Minute}
@@ -319,6 +322,7 @@ func (o *oracle) afterStep(i int, s step, out string, pg *page, logFrom int, bef
 		accepted = out == "to-app-ok"
 		allowedGone["code/"+s.C] = true
 		if accepted {
+			o.owed[s.S] = r.now()
 			o.used(i, "cs", s.S, "cs/"+s.S)
 			if mixing {
 				r.violate(i, "cross-accepted", "callback", fmt.Sprintf("code of %s with state of %s on tenant %s accepted", s.C, s.S, s.Tn))
@@ -327,7 +331,11 @@ func (o *oracle) afterStep(i int, s step, out string, pg *page, logFrom int, bef
 	case "Retrieve":
 		if out == "token" {
 			o.used(i, "sid", s.F, "sid/"+s.F)
+		} else if at, ok := o.owed[s.F]; ok && r.now()-at < ttl["sid"] {
+			// U1, the other direction: the token bought by the flow's own callback is what the session id delivers
+			r.violate(i, "token-not-delivered", "retrieve", "the callback of "+s.F+" succeeded, its session id answers "+out)
 		}
+		delete(o.owed, s.F)
 	case "FetchA":
 		mixing = s.Tn != cfgOf(s.R).Tenant
 		accepted = out == "jwt"
